@@ -149,6 +149,15 @@ CLAIMED = {
         "DESIGN.md §4 C11",
         "exploration",
     ),
+    "C12": (
+        "Hypothesis-generated target/source tables x clause lists x spellings vs a MERGE interpreter on the pre-merge snapshot",
+        "Deterministic merges over generated tables (NULL and duplicate keys), one/two-column ON, 1-4 conditional clauses and spelling "
+        "variants are compared with a reference interpreter of the documented semantics: target multiset, count columns, source and "
+        "bystander unchanged, helper object invisible, atomicity under an injected last-step failure, repeated merge. Exploration.",
+        "3/5 of cases are in the clean shape space; shapes with listed findings are classified by one primary shape.",
+        "DESIGN.md §4 C12",
+        "exploration",
+    ),
 }
 
 NOT_YET = {}
